@@ -456,6 +456,8 @@ func runC15(rc *RC) {
 			{"unknown-sid", "nosuchsid", "0", "QUJD", "item-not-found"},
 			{"wrong-seq", sid, strconv.Itoa((nextSeq + 7) % 65536), "QUJD", "unexpected-request"},
 			{"bad-base64", sid, strconv.Itoa(nextSeq % 65536), "QUJD!!!*", "bad-request"},
+			// base64 that ends in the middle of a group (no padding), a lone padding character, white space only
+			{"truncated-base64", sid, strconv.Itoa(nextSeq % 65536), []string{"QUJDQQ", "QUJDQ", "Q", "QUJDQQ=", "="}[ch.Int("workload", 5)], "bad-request"},
 		}
 		in := injs[ch.Int("workload", len(injs))]
 		var cond string
